@@ -45,11 +45,17 @@ meta={"property":pid,"demo_file":demo,"verification_log":lines,
       "demo_fails_with_change": any('demo_with_rc=1' in l for l in lines),
       "demo_passes_without_change": any('demo_without_rc=0' in l for l in lines),
       "builds": any('build_rc=0' in l for l in lines),
-      "repo_suite_passes_with_change": any(l.startswith('baseline:') and 'not passing: 0' in l for l in lines),
+      "repo_suite_passes_with_change": (any(l.startswith('baseline:') and 'not passing: 0' in l for l in lines) if any(l.startswith('baseline:') for l in lines) else None),
       "caught_by": [re.match(r'check (\S+):',l).group(1) for l in lines if l.startswith('check ') and 'VIOLATION' in l],
       "missed_by": [re.match(r'check (\S+):',l).group(1) for l in lines if l.startswith('check ') and 'VIOLATION' not in l]}
 try:
-    meta["needs_to_manifest"]=open('/verif/seeded/%s/notes.md'%pid).read()[:1500]
+    old=json.load(open('/verif/seeded/%s/meta.json'%pid))
+    if meta["repo_suite_passes_with_change"] is None and old.get("repo_suite_passes_with_change") is not None:
+        meta["repo_suite_passes_with_change"]=old["repo_suite_passes_with_change"]
+        meta["verification_log"]+= [l for l in old.get("verification_log",[]) if l.startswith("baseline:")]
+except Exception: pass
+try:
+    meta["summary"]=json.load(open('/verif/seeded/summaries.json')).get(pid,"")
 except Exception: pass
 json.dump(meta,open('/verif/seeded/%s/meta.json'%pid,'w'),indent=1)
 PY
